@@ -361,6 +361,23 @@ static void c11_run(void) {
 		}
 		ntops[0] = n;
 	}
+	// a third dedicated shape: a few repeating timers are given new settings on another clock by one thread while a
+	// second thread cancels them (the manager moves a timer between the heaps of two clocks while the cancellation
+	// is being processed on the timer's own queue)
+	else if (g_chance(1, 8)) {
+		npop = g_range(2, 5); T.nth = 2;
+		for (int i = 0; i < npop; i++) { pop[i].clock = (int)g_n(3); pop[i].qi = (int)g_n(3); pop[i].strict = g_chance(1, 4); pop[i].far = 0; pop[i].delta = (int64_t)(30000 + g_n(300000)); pop[i].interval = 50000 + g_n(250000); pop[i].leeway = 0; }
+		int n0 = 0, n1 = 0; top *op;
+		op = &tops[1][n1++]; memset(op, 0, sizeof *op); op->idx = idx++; op->kind = TO_PAUSE; op->pause = (uint64_t)g_range(1, 400) * USEC;
+		for (int i = 0; i < npop; i++) {
+			op = &tops[0][n0++]; memset(op, 0, sizeof *op); op->idx = idx++; op->kind = g_chance(1, 4) ? TO_RECONF_SUSPENDED : TO_RECONF_OTHER; op->tm = i; op->clock = (pop[i].clock + 1 + (int)g_n(2)) % 3;
+			op->delta = g_chance(1, 2) ? 0 : (int64_t)g_n(200000); op->interval = g_chance(1, 3) ? 0 : 50000 + g_n(250000); op->leeway = 0;
+			if (g_chance(1, 2)) { op = &tops[0][n0++]; memset(op, 0, sizeof *op); op->idx = idx++; op->kind = TO_PAUSE; op->pause = (uint64_t)g_range(1, 200) * USEC; }
+			op = &tops[1][n1++]; memset(op, 0, sizeof *op); op->idx = idx++; op->kind = TO_CANCEL; op->tm = (i + (int)g_n(2)) % npop;
+			if (g_chance(1, 2)) { op = &tops[1][n1++]; memset(op, 0, sizeof *op); op->idx = idx++; op->kind = TO_PAUSE; op->pause = (uint64_t)g_range(1, 200) * USEC; }
+		}
+		ntops[0] = n0; ntops[1] = n1;
+	}
 	for (int i = 0; i < npop; i++) if (op_on(i))
 		h_sample("#%d timer clock=%s start=%+ld interval=%lu leeway=%lu q%d%s\n", i, clk_names[pop[i].clock], (long)pop[i].delta, (unsigned long)pop[i].interval, (unsigned long)pop[i].leeway, pop[i].qi, pop[i].strict ? " strict" : "");
 	static const char *const tn[TO_N] = { "pause", "new-timer", "after", "set_timer(other thread)", "set_timer(from handler)", "suspend+set_timer+resume", "suspend+resume", "cancel", "cancel-many", "block-handler-queue", "cancel-all" };
